@@ -10,6 +10,8 @@ from __future__ import annotations
 from fractions import Fraction
 from typing import Any, Dict, List
 
+from hypothesis import strategies as st
+
 from .. import drive_api, e2e, gen, model
 from ..engine_common import engine_case, history_classes
 from ..runner import Outcome
@@ -19,7 +21,8 @@ LEVEL = "exploration"
 RULE = (
     "Hypothesis composite strategy constructing valid single-asset histories of 2-14 transactions (all 14 types, "
     "transfers with/without fee, equal instants p=0.25, mixed UTC offsets, year/leap/365-day attractors, disposals sized "
-    "from actual holdings) x {fifo,lifo,hifo,lofo} x year->method schedules; 16 shards seeded from VERIF_SEED. "
+    "from actual holdings) x {fifo,lifo,hifo,lofo} x year->method schedules; one case in sixty is a 'drip' history (2-4 sizeable "
+    "lots, then 70-160 small disposals a few hours or days apart); 16 shards seeded from VERIF_SEED. "
     "Oracle: replay of the returned (event, lot, amount) list against remaining-lot balances from the input rows with "
     "the method's primary ranking key. Non-trivial = at some disposal fraction >= 2 candidate lots with different "
     "primary keys exist; distinct = distinct canonical case JSON (64-bit hash)."
@@ -41,8 +44,46 @@ def budget(tier: str) -> Dict[str, Any]:
     return {"shards": 16, "examples": 1500 if tier == "quick" else 25000, "examples2": 8 if tier == "quick" else 150}
 
 
+@st.composite
+def drip_case(draw: Any) -> Dict[str, Any]:
+    """Dollar-cost averaging in reverse: two to four sizeable lots at different prices, then 70-160 small disposals, one every
+    few hours or days, none of which exhausts a lot.  Whatever the matcher keeps between disposals (heaps, indexes, caches)
+    is exercised far beyond the dozen steps of the step-by-step generator, with few random choices."""
+    acc = (gen.EXCHANGE_NAMES[0], gen.HOLDER_NAMES[0])
+    us = gen._year_start_us(draw(st.integers(2016, 2020))) + draw(st.integers(0, 300)) * gen.DAY_US + draw(st.integers(0, 86399)) * gen.US
+    rows: List[Dict[str, Any]] = []
+    prices = draw(st.lists(st.integers(1, 900), min_size=2, max_size=4, unique=True))
+    for price in prices:
+        rows.append({"table": "in", "row": 3 + len(rows), "ts": model.fmt_ts(us, 0), "ex": acc[0], "ho": acc[1], "type": draw(st.sampled_from(["buy", "buy", "interest"])), "price": gen.units_to_str(price * gen.UNIT), "crypto_in": gen.units_to_str(draw(st.integers(10, 30)) * gen.UNIT), "uid": f"l{len(rows)}"})
+        us += draw(st.integers(1, 50)) * gen.DAY_US
+    n = draw(st.integers(70, 160))
+    spacing = draw(st.sampled_from([3600 * gen.US, 7 * 3600 * gen.US, gen.DAY_US, 2 * gen.DAY_US]))
+    piece = draw(st.sampled_from([gen.UNIT // 1000, gen.UNIT // 100, 3 * gen.UNIT // 100]))
+    kinds = draw(st.sampled_from([("sell",), ("sell", "fee"), ("sell", "gift", "lost")]))
+    for i in range(n):
+        us += spacing
+        kind = kinds[i % len(kinds)]
+        amount = piece * (1 + i % 3)
+        row = {"table": "out", "row": 3 + len(rows), "ts": model.fmt_ts(us, 0), "ex": acc[0], "ho": acc[1], "type": kind, "price": gen.units_to_str((50 + i % 11) * gen.UNIT), "out": gen.units_to_str(amount), "fee": "0", "uid": f"d{i}"}
+        if kind == "fee":
+            row["out"], row["fee"] = "0", gen.units_to_str(amount)
+        rows.append(row)
+    case = {"asset": "B1", "exchanges": [acc[0]], "holders": [acc[1]], "rows": rows, "sub_generator": "drip"}
+    case["schedule"] = draw(gen.schedule(model.make_txs(rows), methods=model.METHODS, multi_prob=0.3))
+    case["country"] = "us"
+    case["allow_negative"] = True
+    return case
+
+
+@st.composite
+def strategy_case(draw: Any) -> Dict[str, Any]:
+    if draw(st.integers(0, 59)) == 0:
+        return draw(drip_case())
+    return draw(engine_case(CFG))
+
+
 def strategy(tier: str) -> Any:
-    return engine_case(CFG)
+    return strategy_case()
 
 
 def strategy2(tier: str) -> Any:
@@ -112,6 +153,8 @@ def evaluate(case: Dict[str, Any]) -> Outcome:
     out = Outcome()
     txs = model.make_txs(case["rows"])
     out.classes |= history_classes(txs, case["schedule"])
+    if case.get("sub_generator") == "drip":
+        out.classes.add("drip_70_to_160_small_disposals")
     dump = drive_api.run_case(case)
     if not dump["ok"]:
         if model.overspend_somewhere(txs):
